@@ -29,6 +29,9 @@ thread_local! {
     pub static CROWDED_WRITER: std::cell::Cell<bool> = const { std::cell::Cell::new(false) };
     /// thorough tier: the matrices also cover stacks with three read-only levels and values of 0 B and 3 x 8 KiB
     pub static DEEP: std::cell::Cell<bool> = const { std::cell::Cell::new(false) };
+    /// which key the cells use: 0 = images in shards (1, 2) of 3; 1 = both images in the last shard (secondary = shard 0 by
+    /// the wrapping fix-up); 2 = both images in the first shard (secondary = shard 1 by the fix-up)
+    pub static KEY_VARIANT: std::cell::Cell<u8> = const { std::cell::Cell::new(0) };
     /// an fsx controller to install for the duration of the operation
     pub static CONTROLLER: std::cell::RefCell<Option<Arc<dyn shim::Controller>>> = const { std::cell::RefCell::new(None) };
 }
@@ -44,7 +47,18 @@ pub fn val_c() -> Val {
 }
 
 pub fn the_key() -> K {
-    ops::key_for_shards("key", 1, 2, NSHARDS)
+    match KEY_VARIANT.with(|k| k.get()) {
+        // both hash images select the last of NSHARDS shards: the secondary shard is the first one, by the
+        // distinctness fix-up wrapping around
+        1 => {
+            let k = K::new("key", ops::hash_for_primary(NSHARDS - 1, NSHARDS), ops::hash_for_secondary(NSHARDS - 1, NSHARDS));
+            debug_assert_eq!(ops::expected_shards(k.h1, k.h2, NSHARDS), (NSHARDS - 1, 0));
+            k
+        }
+        // both images select the first shard: the secondary shard is the second one, by the fix-up
+        2 => K::new("key", ops::hash_for_primary(0, NSHARDS), ops::hash_for_secondary(0, NSHARDS)),
+        _ => ops::key_for_shards("key", 1, 2, NSHARDS),
+    }
 }
 
 /// Content of one level for the key: 0 nothing, 1 A, 2 B; sharded levels also
@@ -622,7 +636,7 @@ pub fn set_tier(tier: crate::report::Tier) {
     DEEP.with(|d| d.set(tier == crate::report::Tier::Thorough));
 }
 
-fn writer_capacity(f: Front) -> usize {
+pub fn writer_capacity(f: Front) -> usize {
     if CROWDED_WRITER.with(|c| c.get()) {
         match f {
             Front::Plain => 2,
